@@ -291,8 +291,10 @@ _poll_add_(struct qb_loop *l,
 	   int32_t fd, int32_t events, void *data, struct qb_poll_entry **pe_pt)
 {
 	struct qb_poll_entry *pe;
+	struct qb_poll_entry *other;
 	uint32_t install_pos;
 	int32_t res = 0;
+	int32_t i;
 	struct qb_poll_source *s;
 
 	if (l == NULL) {
@@ -316,6 +318,22 @@ _poll_add_(struct qb_loop *l,
 	pe->runs = 0;
 	res = s->driver.add(s, pe, fd, events);
 	if (res == 0) {
+		/*
+		 * The number may be that of a descriptor whose callback we
+		 * are in right now: it was closed there and the new one got
+		 * its number. The entry being dispatched is finished then;
+		 * it must neither be found under that number any more nor
+		 * be armed again when its callback returns.
+		 */
+		for (i = 0; i < s->poll_entry_count; i++) {
+			assert(qb_array_index(s->poll_entries, i, (void **)&other) == 0);
+			if (other != pe && other->ufd.fd == fd &&
+			    other->item.type == QB_LOOP_FD &&
+			    other->state == QB_POLL_ENTRY_JOBLIST &&
+			    qb_list_empty(&other->item.list)) {
+				_poll_entry_mark_deleted_(other);
+			}
+		}
 		*pe_pt = pe;
 		return 0;
 	} else {
